@@ -526,3 +526,66 @@ def variants(world, tier="quick", only=None):
     if only:
         out = [v for v in out if any(o in v.name for o in only)]
     return out
+
+
+class FilterSolversVariant(Variant):
+    """Factory._filter_solvers(solver_list, logic) with two registered classes declaring two logics each (arbitrary theories,
+    quantified or not), `<=` of logics running from source: the result holds exactly the classes one of whose declared
+    logics is at least as expressive as the requested one - theory AND quantifiers -, each under its own name; without a
+    logic every class is kept."""
+    prop_ids = ("C13",)
+    qualname = "pysmt.factory.Factory._filter_solvers"
+    bounded = "arity"
+    replay_kind = "factory"
+
+    def __init__(self, world, with_logic):
+        self.world, self.with_logic = world, with_logic
+        self.name = "select:filter[%s]" % ("logic-given" if with_logic else "no-logic")
+
+    def setup(self, ex):
+        from pyvc.symex import DictVal
+        W = self.world
+        core.make_env(ex, W)
+        h = ClosestLogicVariant(W, 1)
+        self.lle = h.lle
+        self.classes = []
+        for c in range(2):
+            logics = [h.mk_logic(ex, "C%dL%d" % (c, i)) for i in range(2)]
+            self.classes.append(Obj("builtins.type", {"LOGICS": logics}, tag="SolverClass%d" % c))
+        self.target = h.mk_logic(ex, "T")
+        self.names = ["first-solver", "second-solver"]
+        self.lst = DictVal([[n, c] for n, c in zip(self.names, self.classes)])
+        fac = Obj("pysmt.factory.Factory", {}, tag="factory")
+        fi = W.repo.func(self.qualname)
+        return W.wrap_func(fi, fi.module, bound=fac), [self.lst], ({"logic": self.target} if self.with_logic else {})
+
+    def check(self, ex, outcome):
+        from pyvc.symex import DictVal
+        kind, r = outcome
+        if kind == "raise":
+            return [("no-exception", z3.BoolVal(False))]
+        if not isinstance(r, DictVal):
+            return [("returns-a-dictionary", z3.BoolVal(False))]
+        goals = []
+        for n, c in zip(self.names, self.classes):
+            hit = [v_ for k_, v_ in r.items if k_ == n]
+            present = len(hit) == 1 and hit[0] is c
+            goals.append(("no-class-under-another-name", z3.BoolVal(len(hit) == 0 or present)))
+            if self.with_logic:
+                sup = z3.Or([self.lle(self.target, l) for l in c.fields["LOGICS"]])
+                goals.append(("kept-exactly-when-a-declared-logic-covers-the-request", z3.BoolVal(present) == sup))
+            else:
+                goals.append(("every-class-kept-without-a-logic", z3.BoolVal(present)))
+        goals.append(("nothing-else", z3.BoolVal(all(k_ in self.names for k_, _ in r.items))))
+        return goals
+
+
+_base_variants13f = variants
+
+
+def variants(world, tier="quick", only=None):
+    out = _base_variants13f(world, tier, None)
+    out += [FilterSolversVariant(world, True), FilterSolversVariant(world, False)]
+    if only:
+        out = [v for v in out if any(o in v.name for o in only)]
+    return out
